@@ -10,7 +10,8 @@ EVIDENCE = dict(
          "evaluated on every real state); every fourth history passes through save+load and pure saves and continues; a "
          "262-module history, a history of 300 connect/disconnect cycles as single events (Cycles), repeated requests between "
          "positions above 256, the Output as the only source."
-         " Operands carry ~ applied up to three times (~~m is m).",
+         " Operands carry ~ applied up to three times (~~m is m)."
+         " MC_RVSystem focus clones (Module.clone() of attached, linked modules attached and linked again) is simulated and replayed; every third save+load runs with the library's loggers at DEBUG.",
     explanation="TLC checks Consistent, EdgesAsRequested and the save/load invariants on every reachable state "
                 "of the bounded model; the real Project.connect / >> / << / ~ are bound by graph replay and by "
                 "trace validation.")
